@@ -201,6 +201,9 @@ impl Win {
 					let w = s.last_n(n);
 					let v: f64 = w.iter().map(|q| q.v).sum();
 					let rin: f64 = w.iter().map(|q| q.r).sum();
+					if s.exactly_summable(n) {
+						return Q::exact(v);
+					}
 					Q::new(v, win_allow(t, n, n as f64, m) + rin)
 				}
 			}
@@ -245,6 +248,9 @@ impl Win {
 				}
 				// history magnitude of the changes is at most 2 * magnitude of the values
 				let rin: f64 = w.iter().map(|q| q.r).sum();
+				if s.exactly_summable(n + 1) {
+					return Q::exact(v);
+				}
 				Q::new(v, win_allow(t, n, n as f64, 2.0 * m) + 2.0 * rin)
 			}
 		}
